@@ -12,6 +12,13 @@ package types
 // The allowance table as a view of the module store (has / val = the store's domain and values): absent == 0.
 //@ ghost func cpcAllow(has map[bytes]bool, val map[bytes]bytes, o common.Address, s common.Address) int = (has[allowKeyB(o, s)] && blen(val[allowKeyB(o, s)]) != 0) ? beVal(val[allowKeyB(o, s)]) : 0
 //@ ghost func metaKeyB(a common.Address) bytes = bcat(b1(2), addrBytes(a))
+//@ ghost func denomKeyB(d string) bytes = bcat(b1(3), strBytes(d))
+
+// The four tables of the module store have disjoint key spaces: every key starts with its table's prefix byte.
+// cpcKeyTable(k) = the first byte of k, axiomatised ONLY for the four key shapes the module builds (a first-element lemma
+// about byte strings; trusted; quantifies over abstract byte strings only, so that the solvers keep finding models).
+//@ ghost func cpcKeyTable(k bytes) int
+//@ axiom cpc_key_tables: cpcKeyTable(b1(1)) == 1 && (forall a bytes :: cpcKeyTable(bcat(b1(2), a)) == 2) && (forall d bytes :: cpcKeyTable(bcat(b1(3), d)) == 3) && (forall a bytes, b bytes :: cpcKeyTable(bcat(bcat(bcat(bempty(), b1(4)), a), b)) == 4)
 
 // Package-level key prefixes hold the values their initialisers give them (T4: package-level variables are not
 // modified after init; the initialisers are the one-byte literals in keys.go, so len == cap == 1: appending to a
@@ -23,11 +30,13 @@ package types
 //@ func Erc20CustomPrecompiledContractAllowanceKey(owner, spender common.Address) []byte
 //@   modifies nothing
 //@   ensures[C10.allow_key_layout] bytes(result) == allowKeyB(owner, spender) && len(result) == 41 && fresh(base(result))
+//@   ensures[C10.allow_key_table,C17.allow_key_table] cpcKeyTable(bytes(result)) == 4
 //@   panics never
 
 //@ func CustomPrecompiledContractMetaKey(contractAddr common.Address) []byte
 //@   modifies nothing
 //@   ensures[C17.meta_key_layout] bytes(result) == metaKeyB(contractAddr) && len(result) == 21
+//@   ensures[C17.meta_key_table] cpcKeyTable(bytes(result)) == 2
 //@   panics never
 
 // params.go — a valid Params record has protocol version 1 (the only one defined)
@@ -44,4 +53,15 @@ package types
 //@ func (m Erc20CustomPrecompiledContractMeta) Validate(cpcV ProtocolCpc) (err error)
 //@   modifies nothing
 //@   ensures[C17.erc20_meta_validate] (err == nil) == (m.Symbol != "" && m.Decimals <= 18 && m.MinDenom != "" && m.Symbol != m.MinDenom)
+//@   panics never
+
+//@ func Erc20CustomPrecompiledContractMinDenomToAddressKey(minDenom string) []byte
+//@   modifies nothing
+//@   ensures[C17.denom_key_layout] bytes(result) == denomKeyB(minDenom) && len(result) == 1 + len(minDenom)
+//@   ensures[C17.denom_key_table] cpcKeyTable(bytes(result)) == 3
+//@   panics never
+
+//@ func (m StakingCustomPrecompiledContractMeta) Validate(cpcV ProtocolCpc) (err error)
+//@   modifies nothing
+//@   ensures[C17.staking_meta_validate] (err == nil) == (m.Symbol != "" && m.Decimals <= 18)
 //@   panics never
